@@ -783,6 +783,29 @@ example : chainDirect opWitness.1 opWitness.2 (.cls ['B', 'i', 'g'] .nil) [(.add
     foldBinAny opWitness.1 opWitness.2 (.cls ['B', 'i', 'g'] .nil) [(.add, .cls ['N', 'u', 'm'] .nil), (.add, .cls ['B', 'i', 'g'] .nil)] = .ok (.cls ['B', 'i', 'g'] .nil) := by
   decide +kernel
 
+/-! ## attributes of user generic classes (Model/InferOps.lean `propOf` = templates.Class.prop over the TemplateManipulator port) -/
+
+/-- THE sentence for an attribute of a generic class read on an instance: the declared type with every class type variable, at any
+    depth, replaced by the receiver's argument for it — for every declared type and every receiver -/
+def generic_attr_statement : Prop :=
+  ∀ (c : Str) (d k v : Ty), propOf d (.cls c (.cons (.tvar ['T', 'K']) (.cons (.tvar ['T', 'V']) .nil))) (.cls c (.cons k (.cons v .nil))) =
+    substTy [(['T', 'K'], k), (['T', 'V'], v)] d
+
+/-- proved for the declared types and type arguments the generators build (nine shapes with the variables up to three levels deep ×
+    five × five arguments, by evaluation of the step-by-step port of TemplateManipulator); the general statement needs the
+    correctness of the path matching for arbitrary nesting, which is proved for `list[T].pop` only (`template`) -/
+theorem generic_attr_partial : ∀ d ∈ deepForms, ∀ k ∈ deepArgs, ∀ v ∈ deepArgs,
+    propOf d (.cls ['X'] (.cons (.tvar ['T', 'K']) (.cons (.tvar ['T', 'V']) .nil))) (.cls ['X'] (.cons k (.cons v .nil))) =
+      substTy [(['T', 'K'], k), (['T', 'V'], v)] d := by
+  decide +kernel
+
+/-- non-vacuity / the round-7 class of change: two receivers with different arguments get different answers for the same declaration
+    (`propOf` is a function of its arguments only: no answer can depend on an earlier one) -/
+example : propOf (.dict (.tvar ['T', 'K']) (.list (.tvar ['T', 'V']))) (.cls ['X'] (.cons (.tvar ['T', 'K']) (.cons (.tvar ['T', 'V']) .nil)))
+      (.cls ['X'] (.cons .str (.cons .float .nil))) = .dict .str (.list .float) ∧
+    propOf (.dict (.tvar ['T', 'K']) (.list (.tvar ['T', 'V']))) (.cls ['X'] (.cons (.tvar ['T', 'K']) (.cons (.tvar ['T', 'V']) .nil)))
+      (.cls ['X'] (.cons .int (.cons .str .nil))) = .dict .int (.list .str) := by decide +kernel
+
 /-! ## spread items -/
 
 /-- `on_spread` answers the first type argument; for the sources whose items ARE described by their first type argument — a list,
@@ -831,11 +854,12 @@ theorem shape_operators : ∀ op : BOp, op.arith = InferShape.arithTokens.contai
 theorem shape_attr_indexes :
     lookup ['o', 'n', '_', 's', 'p', 'r', 'e', 'a', 'd'] InferShape.attrIndexes = some [0] ∧
     lookup ['o', 'n', '_', 'i', 'n', 'd', 'e', 'x', 'e', 'r'] InferShape.attrIndexes = some [0, 1] ∧
+    lookup ['o', 'n', '_', 'd', 'i', 'c', 't'] InferShape.attrIndexes = some [1] ∧ InferShape.attrIndexes.length = 3 ∧
     InferShape.iteratesIndex = 0 ∧ InferShape.operandBasesDirect = true ∧ InferShape.receiverFirst = true ∧
     (∀ t : Ty, onSpread t = match t.attrs.get? 0 with | some a => .ok a | none => .error .fatal) ∧
     (∀ (t : Ty) (k : Expr), (onIndex (.list t) k).toOption = (Ty.list t).attrs.get? 0) ∧
     (∀ (a b : Ty) (k : Expr), (onIndex (.dict a b) k).toOption = (Ty.dict a b).attrs.get? 1) := by
-  refine ⟨by decide, by decide, by decide, by decide, by decide, ?_, fun _ _ => rfl, fun _ _ _ => rfl⟩
+  refine ⟨by decide, by decide, by decide, by decide, by decide, by decide, by decide, ?_, fun _ _ => rfl, fun _ _ _ => rfl⟩
   intro t
   unfold onSpread
   cases h : t.attrs <;> rfl
